@@ -105,3 +105,5 @@ pub fn sym_game_nocache(below: usize) -> Game {
         state: stack(below, nd::u8()),
     }
 }
+pub fn sym_bools64() -> [bool; 64] { rep64!(nd::bool()) }
+pub fn sym_codes64() -> [u8; 64] { rep64!(sym_code()) }
